@@ -311,12 +311,13 @@ pub fn eval(n: &Node, at: i64) -> R {
                     let mut g: i128 = 0;
                     for v in &vs {
                         g = gcd_i128(g, *v as i128);
+                        if g > MAX {
+                            // |i64::MIN| as a running gcd: like the sums of avg / med, intermediate
+                            // results outside i64 are not specified
+                            return RV::Unspec("U3: a running gcd does not fit");
+                        }
                     }
-                    if g > MAX {
-                        RV::Unspec("U3: gcd does not fit")
-                    } else {
-                        RV::Val(g as i64, q)
-                    }
+                    RV::Val(g as i64, q)
                 }
                 Lcm => {
                     let mut l: i128 = vs[0].unsigned_abs() as i128;
